@@ -177,6 +177,19 @@ func svPreETH(pre *svEthPre, kind int) func(e *svEnv) {
 		} else {
 			pre.where = sv.Choice("eth.where", 4)
 		}
+		// a bystander: an ongoing tracker for the second lock (7 wei) owned by B with
+		// two yes votes, which the harness's transactions name only by submitting
+		// that very external transaction
+		{
+			x := svExtTxs[1]
+			bt := trackerlib.NewTracker(trackerlib.ProcessTypeLock, svParty_(1).Addr, x.raw, ethcmn.BytesToHash(x.raw), pre.wit)
+			bt.ProcessOwner = svParty_(1).Addr
+			bt.State = trackerlib.BusyFinalizing
+			bt.FinalityVotes[0], bt.FinalityVotes[1] = 1, 1
+			if err := ctx.ethTrackers.WithState(ctx.deliver).WithPrefixType(trackerlib.PrefixOngoing).Set(bt); err != nil {
+				sv.Unreachable("bystander tracker")
+			}
+		}
 		if pre.where == 0 {
 			return
 		}
@@ -287,7 +300,7 @@ func svVoteCount(votes []int, v int) int {
 //
 // sv:bounds 4 witnesses (the 3 parties and one more address), threshold floor(2*4/3)+1 = 3; a tracker for the lock of 5 or the redeem of 3 absent, ongoing with recorded votes (quick: 8 representative vectors in every rotation over the slots; thorough: every combination; state as the votes imply), in the passed or in the failed store, owner party A (thorough: any); kinds: lock / redeem with any party as locker / owner and the external transaction one of two locks, two redeems, a contract creation carrying the lock selector, garbage bytes or empty; report by any party for either tracker name, any vote index (symbolic int64), success or failure, Locker field the owner or another party; ETH balances symbolic; the shared tracker store's selected prefix (in-memory residue) ongoing, failed or passed; mempool-admitted regime
 // sv:outside ERC20 lock / redeem; the RLP and ABI decoding of the external transaction (models svModel_DecodeTransaction, svModel_VerifyLock, svModel_StringTOABI, svModel_getSignFromName; the byte strings are real transactions and the native replay decodes them with go-ethereum); block-end tracker transitions; more than 4 witnesses (SV_C15_addvote / SV_C15_threshold cover 1..5 at the tracker level); histories
-// sv:goal a report changes ETH holdings only when its own vote makes the count cross the threshold: a lock then mints exactly the locked amount to the tracker's owner (whatever the report names as locker) and raises the supply counter by the same amount, a redeem failure refunds exactly the redeemed amount to the owner; a vote counts only from the witness recorded at the given index that has not voted; reports on a decided tracker change nothing; a lock creates a tracker (owner = locker, no votes, no mint) only when no ongoing or passed tracker has that external transaction; a redeem debits the owner and the counter by exactly the amount and creates the tracker only when none exists in any store; the supply counter always equals the ETH held by the parties
+// sv:goal another ongoing tracker (second lock, two yes votes) is never changed; a report changes ETH holdings only when its own vote makes the count cross the threshold: a lock then mints exactly the locked amount to the tracker's owner (whatever the report names as locker) and raises the supply counter by the same amount, a redeem failure refunds exactly the redeemed amount to the owner; a vote counts only from the witness recorded at the given index that has not voted; reports on a decided tracker change nothing; a lock creates a tracker (owner = locker, no votes, no mint) only when no ongoing or passed tracker has that external transaction; a redeem debits the owner and the counter by exactly the amount and creates the tracker only when none exists in any store; the supply counter always equals the ETH held by the parties
 func SV_C15_handlers() {
 	svCurrencyLimit = 1
 	pre := &svEthPre{}
@@ -300,6 +313,14 @@ func SV_C15_handlers() {
 	e.beforeDeliver = func() { e.app.Context.ethTrackers.WithPrefixType(residue) }
 	r := e.step(raw, signers, true)
 	ok := r.resp.Code == 0
+	// the bystander tracker is untouched
+	if bt, at := svTrackerAt(e, ethcmn.BytesToHash(svExtTxs[1].raw)); true {
+		y, n := 0, 0
+		if bt != nil {
+			y, n = bt.GetVotes()
+		}
+		sv.Assert(bt != nil && at == 1 && y == 2 && n == 0 && bt.State == trackerlib.BusyFinalizing && bt.ProcessOwner.Equal(svParty_(1).Addr), "a-tracker-no-transaction-names-is-untouched")
+	}
 	dETH := func(i int) *big.Int {
 		n := "b:" + svPartyName(i) + ":ETH"
 		return new(big.Int).Sub(r.after.get(n), r.before.get(n))
